@@ -30,7 +30,7 @@ type msgEntry struct {
 func inprocMsgEntries(p *core.Prog) []msgEntry {
 	var out []msgEntry
 	add := func(fn *ssa.Function) {
-		if fn == nil {
+		if fn == nil || len(fn.Params) < 2 {
 			return
 		}
 		var ps []*ssa.Parameter
